@@ -34,12 +34,8 @@ fn mem_with(pre: usize, init: &[u8; PRE_MAX]) -> Memory {
     let mut m = Memory::default();
     m.grow(pre);
     assert!(m.len() == pre);
-    let mut i = 0;
-    while i < PRE_MAX {
-        if i < pre {
-            m[i] = init[i];
-        }
-        i += 1;
+    if pre > 0 {
+        m[..pre].copy_from_slice(&init[..pre]);
     }
     m
 }
